@@ -468,3 +468,95 @@ def c07_programs(rng, bw, n, known_class=False, max_branches=5):
             a.op(rng.choice(["RETURN", "REVERT"]))
         out.append(a.assemble())
     return out
+
+
+def c08_programs(rng, bw, n):
+    """loop-free programs with constant jump targets of every kind: valid, inside push data, at a non-JUMPDEST
+    byte, out of range, >= 2^32 with valid low bits, computed from constants; dead code behind invalid jumps and
+    after halting instructions"""
+    out = []
+    for _ in range(n):
+        a = Asm()
+        nblocks = rng.randrange(2, 7)
+        depth = 0
+        for bi in range(nblocks):
+            # a little straight-line code
+            for _ in range(rng.randrange(0, 5)):
+                r = rng.random()
+                if depth < 2 or r < 0.4:
+                    a.push(rng.choice([0, 1, 2, 0x5b, 0x5b5b, 7, 2 ** 32 + 5])); depth += 1
+                elif r < 0.7:
+                    a.op(rng.choice(ALU2)); depth -= 1
+                elif r < 0.85:
+                    a.op(rng.choice(["CALLER", "CALLVALUE", "TIMESTAMP", "PC", "CODESIZE"])); depth += 1
+                else:
+                    a.op("POP"); depth -= 1
+            kind = rng.randrange(11)
+            jop = rng.choice(["JUMP", "JUMPI"])
+            lab = "B%d" % (bi + 1)
+
+            def cond():
+                nonlocal depth
+                if jop == "JUMPI":
+                    a.push(rng.choice([0, 1])) if rng.random() < 0.7 else a.op("CALLVALUE")
+
+            if kind <= 2:      # valid forward target
+                cond(); a.push_label(lab).op(jop)
+            elif kind == 3:    # target inside push data (a 0x5b immediate further on)
+                cond(); a.push_label("D%d" % bi).op(jop)
+                a.op("STOP")
+                a.items.append(("l", "D%d" % bi))         # label WITHOUT emitting a JUMPDEST
+                a.items.pop()                              # (keep assembler simple: use raw offset below)
+                a.raw(b"\x61\x5b\x5b")
+            elif kind == 4:    # non-JUMPDEST byte
+                cond(); a.push(rng.randrange(0, 4)).op(jop)
+            elif kind == 5:    # out of range
+                cond(); a.push(rng.choice([0x7fff, 0xffff, 2 ** 31])).op(jop)
+            elif kind == 6:    # >= 2^32 whose low 32 bits name a valid JUMPDEST (label of next block)
+                cond(); a.items.append(("r64", lab)); a.op(jop)
+            elif kind == 7:    # computed-constant target
+                cond(); a.items.append(("rsplit", lab)); a.op(jop)
+            elif kind == 8:    # halting instruction followed by dead code
+                if depth >= 2 and rng.random() < 0.5:
+                    a.op(rng.choice(["RETURN", "REVERT"]))
+                else:
+                    a.op(rng.choice(["STOP", "INVALID", "SELFDESTRUCT" if depth >= 1 else "STOP"])) if True else None
+                a.push(1).push(1).op("SSTORE")
+            elif kind == 9:    # unassigned byte as an instruction
+                a.raw([rng.choice([0x0c, 0x21, 0x49, 0xa5, 0xef])])
+                a.push(2).push(2).op("SSTORE")
+            else:              # symbolic target
+                cond(); a.op("CALLER").op(jop)
+            if jop == "JUMP" and kind in (0, 1, 2, 6, 7):
+                a.push(9).push(9).op("SSTORE")             # dead code behind an unconditional jump
+            a.label(lab)
+            depth = 0 if jop == "JUMP" else max(0, depth)
+        a.op("STOP")
+        out.append(assemble_ext(a))
+    return out
+
+
+def assemble_ext(a):
+    """Asm.assemble plus two extra reference kinds: r64 = PUSH5 (2^32 + offset); rsplit = PUSH2 x PUSH2 y ADD with x+y = offset"""
+    pos, labels = 0, {}
+    size = {"b": None, "r": 3, "r64": 6, "rsplit": 7}
+    for k, v in a.items:
+        if k == "l":
+            labels[v] = pos
+        elif k == "b":
+            pos += len(v)
+        else:
+            pos += size[k]
+    out = b""
+    for k, v in a.items:
+        if k == "b":
+            out += v
+        elif k == "r":
+            out += push_n(labels.get(v, 0xffff), 2)
+        elif k == "r64":
+            out += push_n(2 ** 32 + labels.get(v, 0xffff), 5)
+        elif k == "rsplit":
+            t = labels.get(v, 0xffff)
+            x = t // 2
+            out += push_n(x, 2) + push_n(t - x, 2) + bytes([0x01])
+    return out
